@@ -52,6 +52,16 @@ CHECKS = {
             "Hierarchies with overridden block names, instances top-level / nested / in lists, toggles interleaved with calls and later creations; results must lie in the enumerated set of the most-derived enabled blocks of that very instance; an assignment violating only block B is accepted iff B is off for that instance, probed on every live instance.",
             "Nested and list instances are toggled through the instance object; every block references a field.",
             "5/C07"),
+    "C08": ("exploration",
+            "Hypothesis-generated object trees flattened to path-keyed reference programs; enumerated truth; pinned probes per flattened statement",
+            "Trees with rand_attr/attr sub-objects, structurally identical siblings with distinguishing parent constraints, random and non-random object lists, cross-level constraints through paths and indices, violated own blocks on non-random sub-objects; results and two-directional pins are judged on the flattened program in which a sub-object's blocks count iff its whole ancestor chain is random. A sub-domain uses lists holding subclass instances.",
+            "Bit-select f[i] through a list index is not generated (the DSL reads it as an array subscript); subclass elements that shift inherited field indices are a recorded finding.",
+            "5/C08"),
+    "C17": ("exploration",
+            "generated object trees with logging pre/post_randomize callbacks; event multisets, order and observed values against the tree model",
+            "Every class logs pre/post events; pre_randomize writes generated values into non-random fields read by constraints. Per call: pre and post each exactly once on exactly the objects random in the call, all pre before any post, result satisfies the reference under the pre-written values, post sees the final values.",
+            "Callbacks do not randomize recursively; on SolveFailure only pre events are judged.",
+            "5/C17"),
     "C10": ("exploration",
             "Hypothesis-generated bin specifications, exhaustive value sweep per specification, differential against an independent bin-partition model",
             "Generated coverpoint specifications (bin / bin_array with every count form, overlapping and unordered ranges, auto-bins, enum auto-bins, ignore/illegal bins, iff by field or callable) sampled with every value of the coverpoint's type; after every sample the per-bin increment vector (regular, ignore, illegal) must equal the reference membership vector.",
